@@ -184,6 +184,12 @@ def sessionTicketPayload : Fmt :=
            (caseOf 2 (seq (ticketBase ++ [ticketCerts, uint 1, uint 1, varBytes 2]))
             fail)))
 
+/-- Which layout `SessionTicketPayload.create` must pick for the fields it is given: the v2 tail
+    carries encrypt_then_mac, extended_master_secret and server_name, the v1 tail the client
+    certificate chain; a layout without the tail a field needs would drop that field. -/
+def ticketVersion (hasChain etm ems hasName : Bool) : Nat :=
+  if etm || ems || hasName then 2 else if hasChain then 1 else 0
+
 /-! ## acceptance conditions beyond the framing -/
 
 def bytesLen : Val → Option Nat
